@@ -53,7 +53,8 @@ def order_events(rng, tier):
     return out
 
 
-TARJAN_CFG = """CONSTANT N = %d
+TARJAN_CFG = """CONSTANTS N = %d
+ MAXE = %d
 INIT Init
 NEXT Next
 INVARIANT Partition
@@ -65,10 +66,12 @@ CHECK_DEADLOCK FALSE
 
 def model_check(report, tier):
     from common import run_tlc, MachineryError
-    res = run_tlc("Tarjan", TARJAN_CFG % 3, timeout=3000)
-    if not res.ok or res.left != 0:
-        raise MachineryError("Tarjan.tla: design-level check failed (the model, not the code):\n" + res.errhead)
-    report.add_tlc(res, "Tarjan.tla: every graph on 3 nodes x every root order x every successor order: Partition, TopoOrder, EmittedAreSCCs")
+    for n, maxe in ([(3, 9)] if tier == "quick" else [(3, 9), (4, 5)]):
+        res = run_tlc("Tarjan", TARJAN_CFG % (n, maxe), timeout=6000)
+        if not res.ok or res.left != 0:
+            raise MachineryError("Tarjan.tla: design-level check failed (the model, not the code):\n" + res.errhead)
+        report.add_tlc(res, f"Tarjan.tla: every graph on {n} nodes with <= {maxe} edges x every root order x every successor "
+                            "order: Partition, TopoOrder, EmittedAreSCCs")
 
 
 def selftests(events, rng):
